@@ -424,6 +424,36 @@ class CallOps:
             ks = {atom_kind(a) for a in self.elem_ty(v)}
             if ks <= {'str', 'int', 'bool', 'none'}:
                 return SV(v.kind, seq=self.seq_of(v), owned=(v.kind == 'list'), ty=v.ty)
+        if v.kind == 'val':
+            v = self.narrow(v)
+        if v.kind == 'list':
+            # a fresh list of the same length whose elements are fresh copies (contents unconstrained)
+            st = self.st
+            if st.alloc is None:
+                st.alloc = st.decls.global_const('alloc', 'Int')
+            a0 = st.alloc
+            a1 = st.decls.const('alloc', 'Int')
+            st.assume(mk_lt(a0, a1), 'alloc')
+            st.alloc = a1
+            q = st.decls.const('qdeep', 'Int')
+            st.assume(mk_eq("(len %s)" % q, "(len %s)" % self.seq_of(v)), 'lib')
+            st.seqh = mk_store(self.seqheap(), a0, q)
+            st.bump('SEQ')
+            self.lib_assumptions.add('copy.deepcopy: a fresh object graph of the same class (contents unconstrained), disjoint from every existing object')
+            return SV('list', a0, v.ty, extra={'deepfresh': (a0, a1)})
+        if v.kind == 'ref':
+            # over-approximation: an arbitrary fresh object graph of the same class; everything reachable from the copy
+            # lies in a block of addresses allocated by the copy (its contents are not related to the original's)
+            st = self.st
+            if st.alloc is None:
+                st.alloc = st.decls.global_const('alloc', 'Int')
+            a0 = st.alloc
+            a1 = st.decls.const('alloc', 'Int')
+            st.assume(mk_lt(a0, a1), 'alloc')
+            st.alloc = a1
+            st.assume(mk_eq("(cls %s)" % a0, "(cls %s)" % v.term), 'alloc')
+            self.lib_assumptions.add('copy.deepcopy: a fresh object graph of the same class (contents unconstrained), disjoint from every existing object')
+            return SV('ref', a0, v.ty, extra={'deepfresh': (a0, a1)})
         raise Unsupported('deepcopy of %s' % v.kind, node)
 
     # ------------------------------------------------------------ method calls on values
@@ -630,15 +660,19 @@ class CallOps:
     def str_split(self, s, sep, node):
         """parts = s.split(sep): specified by its inverse"""
         st = self.st
-        q = st.decls.const('qsplit', 'Int')
+        # split is a function of (s, sep): the sequence is a term over them, so two splits of the same string coincide
+        st.decls.fun('ssplit', ['String', 'String'], 'Int')
+        q = "(ssplit %s %s)" % (s.term, sep.term)
         st.decls.fun('sjoin', ['String', 'Int'], 'String')
+        st.assume(mk_eq("(at %s 0)" % q, "(VS (ite (str.contains %s %s) (str.substr %s 0 (str.indexof %s %s 0)) %s))"
+                        % (s.term, sep.term, s.term, s.term, sep.term, s.term)), 'lib')
         st.assume(mk_le('1', "(len %s)" % q), 'lib')
         st.assume(mk_eq("(sjoin %s %s)" % (sep.term, q), s.term), 'lib')
         st.assume("(forall ((j Int)) (=> (and (<= 0 j) (< j (len %s))) (and ((_ is VS) (at %s j)) (not (str.contains (vs (at %s j)) %s)))))"
                   % (q, q, q, sep.term), 'lib')
         st.assume(mk_eq(mk_eq("(len %s)" % q, '1'), mk_not("(str.contains %s %s)" % (s.term, sep.term))), 'lib')
         self.join_axioms(sep.term, q)
-        self.lib_assumptions.add('str.split(sep): parts contain no sep, sep.join(parts) == s, one part iff sep not in s')
+        self.lib_assumptions.add('str.split(sep): parts contain no sep, sep.join(parts) == s, one part iff sep not in s, the first part is the text before the first sep')
         return SV('list', seq=q, owned=True, ty=parse_ty('list[str]'))
 
     def join_axioms(self, sep, q):
